@@ -1024,7 +1024,7 @@ func vpC36RunCase(e *vpC36Env, prog *vpC36Prog, req *vpC36Req, mask vpC36Mask) *
 	}
 	o.stdSnap = c.snap[0]
 	var diffs []string
-	if c.hits[1].Load() == 0 && o.fast.Err == "" && o.fast.Status == 400 && string(o.fast.Body) == "Error when parsing request" {
+	if c.hits[1].Load() == 0 && o.fast.Err == "" && o.fast.Status == 400 && (string(o.fast.Body) == "Error when parsing request" || (req.Method == "HEAD" && len(o.fast.Body) == 0)) {
 		// fasthttp's SERVER refused to parse the request (its own 400, produced before any handler
 		// runs): the adaptor and ConvertRequest were never involved, so there is nothing to compare.
 		o.rejected = true
